@@ -28,6 +28,9 @@ CHECKS = {
  "C08": dict(level="model_checking", design="5/C08",
    technique="per-path symbolic execution of the real start_response / build_response_header / channel.service 500 path with status, header names and values as symbolic unicode strings (21-bit cells); z3 decides line-exactness of the emitted head or the server-built 500",
    text="Status strings, header names and values with up to 4 (quick) / 5 (thorough) fully symbolic code points over [0,0xFF]+{U+2028,U+10000} - so the offending character and its position are symbolic - plus every hop-by-hop name with a symbolic character, non-str names/values/status, both start_response calls (exc_info before and after output) and a header list mutated after the call. Per path z3 decides: if any string contains CR/LF, is non-latin-1, hop-by-hop or not a str, the wire is the server-built 500 made of server strings only and the connection closes; otherwise the head's only CR/LF are terminators, the status line is the application's, each application field is exactly one line (name equal up to case) and every other line is a server field."),
+ "C07": dict(level="model_checking", design="5/C07, appendix A.3",
+   technique="per-path symbolic execution of the real parser -> WSGITask.get_environment -> body stream on skeleton+symbolic-window requests; z3 decides key-by-key equality with a PEP 3333 / RFC 3875 reference image computed from the same symbolic bytes",
+   text="Seven request skeletons (origin/absolute/asterisk targets, valid and invalid percent escapes, repeated, underscore and CGI-looking field names, obs-text, CL and chunked bodies) with a symbolic byte (two in thorough) substituted and inserted at every position, crossed with url_prefix '', '/p', '/p/q', url_scheme and TCP/unix peers: for every path on which the RFC reference delivers the request, z3 decides that each of the 13 request/server variables and every header-derived key equals the reference image, that there are no extra or missing keys, that all strings are latin-1, that wsgi.input yields exactly the framed body and that CONTENT_LENGTH equals its length."),
 }
 NA = {}
 checks = []
